@@ -113,6 +113,11 @@ def c11Cmd (args : List String) : String :=
   | ["n2b", c, v] => match curveOf c with
     | some c => toString (Curve.nonstrictFlagged c (if v == "-" then none else v.toNat?))
     | none => "bad-op"
+  | "inst" :: c :: name :: args => match curveOf c with
+    | some c =>
+      let rs := Curve.instReports c { name := name, args := args.map (fun v => if v == "-" then none else v.toNat?) }
+      if rs.isEmpty then "-" else ",".intercalate rs
+    | none => "bad-op"
   | ["lt", c, k] => match curveOf c, k.toNat? with
     | some c, some k => toString (Curve.rangeChecked c k)
     | _, _ => "bad-op"
@@ -155,12 +160,15 @@ def runnerCmd (args : List String) : String :=
     | some level =>
       let rows := defs.filterMap parseDef
       let find (n : String) : Option DefRow := rows.find? (·.name == n)
+      -- `main=<reports>`: the batch of the main component (absent: no such batch)
+      let mainTok := defs.find? (fun t => t.startsWith "main=")
       let p : Runner.Project :=
         { parseReports := parseReports parse
           known := fun n => (find n).isSome
           gen := fun n => match find n with | some r => (r.ok, r.gen) | none => (false, [])
           lookups := fun n => match find n with | some r => r.lookups | none => []
-          passes := fun n => match find n with | some r => r.passes | none => [] }
+          passes := fun n => match find n with | some r => r.passes | none => []
+          mainReports := mainTok.map (fun t => parseReports (t.drop 5).toString) }
       let o : Runner.Opts := { level := level, allow := csv allow "," }
       let order := csv order ","
       let bs := Runner.batches p order
